@@ -450,10 +450,24 @@ def rule_tomb_escape_scan(ctx):
         for c in outs:
             a0 = strip_cast(f.term(f.n(c)['args'][0], inline=False))
             x = None
+            obj = None
             for s in subterms(a0):
                 if s[0] == 'deref' and s[1][0] == 'local':
                     x = s[1]
+                # a range-based `for (auto &item : items)`: the item itself is a (reference) local
+                if s[0] == 'field' and s[1] in ('first', 'second') and strip_cast(s[2])[0] == 'local':
+                    obj = strip_cast(s[2])
             ok = x is not None and _guarded_not_deleted(f, c, x)
+            if x is None and obj is not None:
+                # `item.deleted()` tested false on the path
+                for (t, lab, cn) in conds_of(f, c, inline=False):
+                    tt = strip_cast(t)
+                    neg = False
+                    while tt[0] == 'un' and tt[1] == '!':
+                        neg = not neg
+                        tt = strip_cast(tt[2])
+                    if tt[0] == 'call' and tt[1].endswith('::deleted') and len(tt) > 3 and strip_cast(tt[3]) == obj and ((lab is True) == neg):
+                        ok = True
             obs.append(Ob('TOMB-ESCAPE', f, c, 'range() copies an item into the result only under !deleted()',
                           f"emplace_back({fmt_term(a0)[:40]}) " + ('under !deleted()' if ok else 'without a deleted() test'), OK if ok else VIOLATED, arm='range'))
     for f in ctx.need(IT + '::advance', ctx.units):
